@@ -59,7 +59,11 @@ func (sh *sipHash) compute() uint64 {
 	b := uint64(length) << 56
 
 	var index int
-	end := ((sh.length - 1) / 8) * 8
+	// every complete 8-byte word is compressed here; the final block holds the remaining 0..7
+	// bytes below the length byte. (Taking the last complete word as the final block merged its top
+	// byte with the length byte: "a1234567" and "i1234567" hashed alike, and so did any two
+	// 8, 16, 24 ... byte keys that differ only in bits the length byte already has.)
+	end := (sh.length / 8) * 8
 	for index = 0; index < end; index += 8 {
 		m := binary.LittleEndian.Uint64(sh.data[index:])
 
